@@ -80,6 +80,9 @@ func solveOne(o *Obligation, idx int, opts solveOpts) {
 		return
 	}
 	script := o.vc.finalScript(o, true)
+	if o.ExpectSat && opts.timeoutS > 3 {
+		opts.timeoutS = 3 // probes only look for a quickly found contradiction
+	}
 	file := filepath.Join(opts.scratch, fmt.Sprintf("o%05d.smt2", idx))
 	if err := os.WriteFile(file, []byte(script), 0o644); err != nil {
 		o.Result = "error"
